@@ -190,6 +190,35 @@ End Loop.
 Section Algo.
 Context (n : nat) (P : vec -> vec) (f : vec -> F) (g : vec -> vec).
 
+(* ------------------------------------------------------------------ 4b. the code BEFORE the loops: start point and step parameter from the options *)
+(* option values are [option F] (None = the Python None); Python truthiness of a float: not None and not 0.0.
+   [vs] = len(algorithm_option.var_start) when a start point is given, [qt] = self._qt.num_variables when a tomography is set,
+   [sqn] = np.sqrt on naturals (oracle).  Result None = the method raises. *)
+Definition C10_truthy (o : option F) : bool := match o with Some v => negb (keqb F v 0) | None => false end.
+Definition C10_getF (o : option F) : F := match o with Some v => v | None => 0 end.
+Definition C10_three : F := C10_two + 1.
+Definition C10_ten : F := C10_ofnat 10.
+(* x_prev: the option's var_start, else the origin object of the tomography (None: no tomography -> AttributeError) *)
+Definition C10_start (var_start origin : option vec) : option vec := match var_start with Some v => Some v | None => origin end.
+(* backtracking: mu = option's mu, else 3 / (2 sqrt(len(var_start))), else 3 / (2 sqrt(num_variables)) *)
+Definition C10_bt_mu (sqn : nat -> F) (mu : option F) (vs qt : option nat) : option F :=
+  if C10_truthy mu then Some (C10_getF mu)
+  else match vs with Some l => Some (C10_three / (C10_two * sqn l))
+       | None => match qt with Some m => Some (C10_three / (C10_two * sqn m)) | None => None end end.
+(* momentum: gamma = 1 / (2 r sqrt(num_variables)), else with len(var_start); needs a truthy r *)
+Definition C10_mom_gamma (sqn : nat -> F) (r : option F) (vs qt : option nat) : option F :=
+  if C10_truthy r then
+    match qt with Some m => Some (1 / (C10_two * C10_getF r * sqn m))
+    | None => match vs with Some l => Some (1 / (C10_two * C10_getF r * sqn l)) | None => None end end
+  else None.
+(* FISTA: delta = option's delta (0.0 is neither truthy nor None: raises), else 1 / (10 sqrt(num_variables)), else with len(var_start) *)
+Definition C10_fista_delta (sqn : nat -> F) (delta : option F) (vs qt : option nat) : option F :=
+  match delta with
+  | Some v => if negb (keqb F v 0) then Some v else None
+  | None => match qt with Some m => Some (1 / (C10_ten * sqn m))
+            | None => match vs with Some l => Some (1 / (C10_ten * sqn l)) | None => None end end
+  end.
+
 (* ------------------------------------------------------------------ 5. backtracking *)
 Section BT.
 Context (mu gamma : F) (afuel : nat).
